@@ -30,16 +30,30 @@ def dist_m(lat1, lon1, lat2, lon2):
 
 
 def decode(mod, reports, reference, rng):
-    """-> list of (lat, lon) or None per report, through decode_1090t_vec with a random split into parallel chunks"""
+    """-> list of records per report (None where nothing came back), through decode_1090t_vec with a random split into
+    parallel chunks; now and then a frame with a broken parity (which the decoder drops) sits between two reports, with a
+    timestamp of its own"""
     n = len(reports)
     k = rng.choice([1, 1, 2, 3, 5])
     cuts = sorted(rng.sample(range(1, n), min(k - 1, max(0, n - 1)))) if n > 1 else []
     msgs, tss, prev = [], [], 0
+    junk = 0
     for c in cuts + [n]:
-        msgs.append([r["frame"] for r in reports[prev:c]])
-        tss.append([r["ts"] for r in reports[prev:c]])
+        m, t = [], []
+        for r in reports[prev:c]:
+            if rng.random() < 0.04 and r["frame"][:2] in ("8d", "8f", "8c"):
+                b = bytearray.fromhex(r["frame"])
+                b[6] ^= 0x08
+                m.append(b.hex())
+                t.append(r["ts"] - 0.05)
+                junk += 1
+            m.append(r["frame"])
+            t.append(r["ts"])
+        msgs.append(m)
+        tss.append(t)
         prev = c
     out = pickle.loads(bytes(mod.decode_1090t_vec(msgs, tss, reference)))
+    decode.junk = junk
     return out, len(msgs)
 
 
@@ -66,6 +80,8 @@ def c06_worker(args):
                 rep.violation("C06:python:exception:" + type(e).__name__, f"decode_1090t_vec raised {type(e).__name__}: {str(e)[:200]}", replay)
                 continue
             rep.cls(f"python:parallel-chunks:{chunks}")
+            if getattr(decode, "junk", 0):
+                rep.cls("python:batches-with-undecodable-frames-in-between")
             if len(out) != len(reports):
                 rep.violation("C06:python:record-count", f"decode_1090t_vec returned {len(out)} records for {len(reports)} valid frames", replay)
                 continue
@@ -112,7 +128,7 @@ def c06_worker(args):
         import traceback
         return {"_crashed": True, "_stderr": "checker error: " + traceback.format_exc()[-1500:], "_cmd": ["pybind"]}
     rep.assumptions.append("Python binding: the cdylib of python/src/lib.rs built from the working tree and imported into the checker's interpreter; "
-                           "decode_1090t_vec on random-family histories split into 1-5 parallel chunks; 25 m bound and alone-vs-interleaved equality")
+                           "decode_1090t_vec on random-family histories split into 1-5 parallel chunks, 4 % of the reports preceded by a frame with a broken parity and a timestamp of its own; 25 m bound and alone-vs-interleaved equality")
     return rep.to_dict()
 
 
